@@ -27,12 +27,18 @@ MANIFEST = dict(
          "(a run that writes every key it reads, or reads only stable keys, has output independent of all earlier runs), and "
          "table theorems over data regenerated on every run: every module/class-level mutable container of shroud.* found by "
          "introspection is immutable, run-determined or per-key fresh, and the AST scan finds no use of time/host/env/cwd/"
-         "random/id/hash/directory order/set iteration. An implementation-only oracle byte-compares whole output directories "
-         "across hash seeds, working directories, pre-populated output directories and in-process sequences.",
-    design="3 C07",
+         "random/id/hash/directory order/set iteration; the file write_output_file leaves behind is a function of its "
+         "inputs only, whatever the directory held before (written_file_independent_of_directory, over the C13 model of "
+         "write_output_file). Ties: update_for_language on every slot shape x language history; the real write_output_file "
+         "into a directory holding an older shorter / longer / empty / identical / unrelated version of the file versus the "
+         "model. An implementation-only oracle byte-compares whole output directories across hash seeds, working "
+         "directories, environments, pre-populated output directories (another library's output; related versions of the "
+         "same files) and in-process sequences incl. libraries with caller-owned results of predefined types.",
+    design="3 C07, 9.4, 9.9",
     note="Trusted: Lean kernel; the translator (introspective registry enumeration, probe classification on a fixed set of "
          "library pairs, AST scan); that the registry abstraction (RunSpec) fits the emitters' use of each registry - this is "
-         "validated by the byte-comparison oracle, not proved. Not modelled: the file system, PyYAML.",
+         "validated by the byte-comparison oracle, not proved. The file system is modelled as a map from names to "
+         "contents (open-for-write replaces the contents); PyYAML is not modelled.",
     technique="Lean 4 proof (invariant over histories; decide +kernel over regenerated tables) + differential correspondence + byte-comparison oracle",
 )
 MODULES = ["ShroudVerif.Props.C07"]
